@@ -260,6 +260,7 @@ func drive(args []string) {
 				}
 				acc.Restarts++
 				from = wo.RestartFrom
+				acc.SegFrom = from
 				if *maxRuns > 0 && acc.Runs >= *maxRuns {
 					break
 				}
@@ -277,7 +278,7 @@ func drive(args []string) {
 
 	// ---- aggregate
 	agg := work.NewStats()
-	var runs, incon, detChecks uint64
+	var runs, incon, detChecks, nonRepeat uint64
 	distinct := map[uint64]bool{}
 	policies := map[string]uint64{}
 	builds := map[string]uint64{}
@@ -288,6 +289,7 @@ func drive(args []string) {
 		runs += o.Runs
 		incon += o.Incon
 		detChecks += o.DetChecks
+		nonRepeat += o.NonRepeat
 		addStats(agg, o.Stats)
 		for _, h := range o.Distinct {
 			distinct[h] = true
@@ -312,6 +314,7 @@ func drive(args []string) {
 		knownT string
 	}
 	var reps []vrep
+	var unconfirmed []string
 	seenSig := map[string]bool{}
 	nv := 0
 	for ji, o := range outs {
@@ -329,7 +332,24 @@ func drive(args []string) {
 		v, err := shrinkAndConfirm(b, build, o.ReplayFile, final, 25*time.Second)
 		os.Remove(o.ReplayFile)
 		if err != nil {
-			fatal2("violation found by worker %d (%s) could not be confirmed by replay: %v", ji, o.Violation, err)
+			// the run alone does not fail in a fresh process: state the
+			// pristine-state comparison cannot see may have been carried over from
+			// earlier runs of the same worker. Re-execute the worker's segment.
+			ss := &Session{Prop: *prop, Seed: *seed, From: o.SegFrom, Stride: uint64(total), Until: o.LastIdx, Build: build}
+			sv, serr := runSession(b.bin(build), b.sites(build), ss)
+			if serr == nil && sv != nil && sv.Sig == o.Violation.Sig {
+				rf := ReplayFile{Session: ss, Violation: sv, Note: fmt.Sprintf("the violating run (index %d) fails only after the runs that precede it in the same process (indices %d, %d, ... step %d); replay with: ./check replay %s", ss.Until, ss.From, ss.From+ss.Stride, ss.Stride, final)}
+				j, _ := json.MarshalIndent(rf, "", " ")
+				if werr := os.WriteFile(final, j, 0o644); werr != nil {
+					fatal2("%v", werr)
+				}
+				v, err = sv, nil
+			}
+		}
+		if err != nil {
+			unconfirmed = append(unconfirmed, fmt.Sprintf("worker %d (%s): %s: %v", ji, build, o.Violation, err))
+			delete(seenSig, o.Violation.Sig)
+			continue
 		}
 		r := vrep{v: v, path: final}
 		for _, k := range kf {
@@ -388,6 +408,7 @@ func drive(args []string) {
 		"returned_slices_kept":   agg.Retained,
 		"entropy_reads":          agg.EntropyRd,
 		"determinism_rechecks":   detChecks,
+		"non_repeating_runs":     nonRepeat,
 		"inconclusive_runs":      incon,
 		"globals_monitored":      globals,
 		"components_real":        []string{"every package of the module under test, built from /repo's working tree (uninstrumented for single-task runs, yield-instrumented for scheduled runs)", "crypto/sha256, math/big, io.ReadFull as the library uses them"},
@@ -436,6 +457,11 @@ func drive(args []string) {
 	if unknown > 0 {
 		os.Exit(1)
 	}
+	if len(unconfirmed) > 0 && len(reps) == 0 {
+		// something failed but nothing could be reproduced: neither a clean
+		// bill nor a violation can be claimed
+		fatal2("%d violation report(s) could not be confirmed by replay and none could: %s", len(unconfirmed), strings.Join(unconfirmed, " | "))
+	}
 }
 
 // mergeWorker folds the output of a restarted worker into the accumulated one.
@@ -455,7 +481,9 @@ func mergeWorker(acc, w *WorkerOut) {
 	acc.Samples = append(acc.Samples, w.Samples...)
 	acc.WallS += w.WallS
 	acc.DetChecks += w.DetChecks
+	acc.NonRepeat += w.NonRepeat
 	acc.LastIdx = w.LastIdx
+	acc.SegFrom = w.SegFrom
 	acc.Poisoned = acc.Poisoned || w.Poisoned
 }
 
